@@ -73,6 +73,9 @@ fn run_scripts(inp: &str, out: &str) {
             if v["probes"]["damage"].is_object() {
                 probes.extend(probe::damage_probes(&fs, &dirkey, &cfg, &v["probes"]["damage"], v["seed"].as_u64().unwrap_or(id), last_seq));
             }
+            if v["probes"]["codec"].is_object() {
+                probes.extend(probe::codec_probes(&fs, &dirkey, &cfg, &v["probes"]["codec"], v["seed"].as_u64().unwrap_or(id), last_seq));
+            }
             // let the probes' workers finish before the next run starts
             std::thread::sleep(std::time::Duration::from_millis(2));
             let mut s = shim::shim();
